@@ -3032,6 +3032,11 @@ impl<const RICE_MAX: u32, I: SignedInteger> FromBitStreamUsing for ResidualParti
                     .map(|_| {
                         let msb = r.read_unary::<1>()?;
                         let lsb = r.read_counted::<RICE_MAX, u32>(rice)?;
+                        // residuals are 32-bit values,
+                        // so the folded value must fit 32 bits
+                        if msb > (u32::MAX >> u32::from(rice)) {
+                            return Err(Error::ResidualOverflow);
+                        }
                         let unsigned = (msb << u32::from(rice)) | lsb;
                         Ok::<_, Error>(if (unsigned & 1) == 1 {
                             -(I::from_u32(unsigned >> 1)) - I::ONE
